@@ -23,6 +23,9 @@
  * Function-pointer restriction targets (DESIGN R8), one per v-table slot:
  *   vp_arr_clear vp_arr_valid vp_arr_first vp_arr_last vp_arr_seek
  *   vp_arr_next vp_arr_prev vp_arr_key vp_arr_value vp_arr_status
+ * and for the two cleanup call sites in ldb_iter_clear (`->func`):
+ *   vp_arr_noop_cleanup   (otherwise they fan out to every address-taken
+ *   two-pointer function, including the unit under test: recursion)
  *
  * Cost note (measured): keep every vp_arr_t a SEPARATE static object (not an
  * array of vp_arr_t indexed by a symbolic child number) and never write to it
@@ -117,6 +120,7 @@ void vp_arr_prev(void *p);
 ldb_slice_t vp_arr_key(const void *p);
 ldb_slice_t vp_arr_value(const void *p);
 int vp_arr_status(const void *p);
+void vp_arr_noop_cleanup(void *arg1, void *arg2);
 
 extern const ldb_itertbl_t vp_arr_table;
 
